@@ -979,17 +979,58 @@ type c17Lookup struct {
 	reply  []peer.ID
 }
 
-// unexploredRound looks for the observable of the open finding
-// recipients-nearest-unexplored among the rounds that sent k since the last
-// quiet point: a round whose exploration (the lookups made by the round's own
-// goroutine, for peer ids of kbucket's preimage table) ended with at least two
-// consecutive lookups that placed no new peer inside the explored zone, and
-// never placed one of the nearest peers `need` inside it. It only labels
-// violations of the recipients clauses; it decides nothing.
+// c17Inside returns the peers of a lookup reply that lie inside the zone the
+// reply covers, as opposed to the peers that only mark its boundary.
 //
-// "Inside": the peers of a reply that are farthest from the lookup target
-// only mark the boundary of what the reply covers (the provider expects to
-// meet them again when it explores their side); the others lie inside.
+// Geometry (the documented contract of keyspace.ShortestCoveredPrefix plus
+// "when every peer diverges from the target at the same bit, that branch is
+// empty: look from the sibling branch where the peers are"): let L be the
+// length of the prefix common to all named peers. Above bit L the reply says
+// nothing that distinguishes them; at bit L they split, and the half on the
+// target's side (bit L equal to the target's bit L) is the zone the reply
+// covers - every swarm member in it was named, because the router names the
+// nearest peers. The peers on the other side of bit L are the farthest ones
+// and only bound the zone. A single named peer covers just itself.
+func c17Inside(target simnet.Kad, reply []peer.ID) []peer.ID {
+	if len(reply) <= 1 {
+		return reply
+	}
+	kads := make([]simnet.Kad, len(reply))
+	for i, p := range reply {
+		kads[i] = simnet.KadOfPeer(p)
+	}
+	L := 256
+	for _, k := range kads[1:] {
+		if c := kads[0].CPL(k); c < L {
+			L = c
+		}
+	}
+	if L >= 256 {
+		return reply
+	}
+	bit := func(k simnet.Kad) byte { return (k[L/8] >> (7 - uint(L%8))) & 1 }
+	var in []peer.ID
+	for i, p := range reply {
+		if bit(kads[i]) == bit(target) {
+			in = append(in, p)
+		}
+	}
+	return in
+}
+
+// unexploredRound decides constructively, from the round's own router log,
+// whether a wrong recipient set of k stems from the open finding
+// recipients-nearest-unexplored: among the rounds that sent k since the last
+// quiet point (a round = one goroutine: it makes the lookups and starts the
+// sender goroutines), a region round - one that explored with lookups for
+// peer ids of kbucket's preimage table - none of whose replies ever covered
+// the position of one of the nearest peers `need`. closestPeersToPrefix
+// promises the peers of the whole prefix it reports as covered; a nearest
+// peer of k shares with k at least the prefix any farther recipient shares,
+// so its position lies in the region the round allocated over: exploration
+// ended with an unexplored gap there. If every nearest peer was covered by
+// the round's replies and the round still left one out, the allocation is at
+// fault and the plain rule is reported. Labels only; decides nothing.
 func (h *c17H) unexploredRound(k *c17Key, need []peer.ID) (note string, found bool) {
 	h.routerMu.Lock()
 	var rounds []uint64
@@ -1005,33 +1046,28 @@ func (h *c17H) unexploredRound(k *c17Key, need []peer.ID) (note string, found bo
 			if l.gid != g || h.byMh[l.key] != nil {
 				continue // another round, or the single-key lookup of a key
 			}
-			minCPL := 257
-			for _, p := range l.reply {
-				if c := l.target.CPL(simnet.KadOfPeer(p)); c < minCPL {
-					minCPL = c
-				}
-			}
 			fresh := false
-			for _, p := range l.reply {
-				if l.target.CPL(simnet.KadOfPeer(p)) > minCPL && !inside[p] {
+			for _, p := range c17Inside(l.target, l.reply) {
+				if !inside[p] {
 					inside[p], fresh = true, true
 				}
 			}
 			n++
-			if fresh {
-				stale = 0
-			} else {
+			if !fresh {
 				stale++
 			}
 		}
-		var unknown []peer.ID
+		if n == 0 {
+			continue // single-key round: it asked the router for the key itself
+		}
+		var uncovered []peer.ID
 		for _, p := range need {
 			if !inside[p] {
-				unknown = append(unknown, p)
+				uncovered = append(uncovered, p)
 			}
 		}
-		if n > 0 && stale >= 2 && len(unknown) > 0 {
-			return fmt.Sprintf("; the exploration of the round that sent it (%d lookups on one goroutine) ended after %d consecutive lookups that named no new peer, without any reply having placed {%s} inside the explored zone", n, stale, sortedNames(h.u, unknown)), true
+		if len(uncovered) > 0 {
+			return fmt.Sprintf("; the round that sent it explored with %d lookups (%d of them named no new peer) and ended with an unexplored gap: no reply covered the position of {%s}", n, stale, sortedNames(h.u, uncovered)), true
 		}
 	}
 	return "", false
